@@ -733,6 +733,24 @@ def backward_slice(body, roots, max_nodes=4000, through_calls=True):
     defs = body.defs()
     dq = deque()
     def push_place(p):
+        # field-sensitive step for tuples built in this body: `_t.#i` with `_t = Tuple{a0, a1, ..}`
+        if len(p) >= 2 and isinstance(p[1], str) and p[1].startswith('.#'):
+            ds = [d for d in defs.get(p[0], []) if d[2] == 'assign']
+            if len(ds) == 1 and ds[0][3]['r']['k'] == 'agg' and ds[0][3]['r']['ak'] == 'Tuple' and len(defs.get(p[0], [])) == 1:
+                i = int(p[1][2:])
+                ops = ds[0][3]['r']['a']
+                if i < len(ops):
+                    sl.locals.add(p[0])
+                    o = ops[i]
+                    pp = op_place(o)
+                    if pp is not None:
+                        push_place(pp + p[2:] if False else pp)
+                        for e in p[2:]:
+                            if isinstance(e, str) and e.startswith('.'):
+                                sl.fields.add(e)
+                    else:
+                        sl.consts.append(o)
+                    return
         for e in p[1:]:
             if isinstance(e, str):
                 if e.startswith('.'):
